@@ -137,6 +137,10 @@ def run(ctx):
             case['bandwidth'] = float(np.percentile(__import__('scipy.spatial.distance', fromlist=['pdist']).pdist(
                 np.array(case['coords'])), int(case['bandwidth'][1:])))
         check_case(ctx, case)
+        # the theorems of C13 are about the generated mask definitions: tie them to the code here as well (Float
+        # twin of `_compass` / `_triangle` / the pair angle on the implementation's own per-pair data, C12's stream)
+        if k % 3 == 0:
+            c12.check_case(ctx, case)
     ctx.lean.flush()
 
 
